@@ -18,7 +18,10 @@
 //! through the real `run_listener` + `reload_tls_identity`, and histories of reloads (certificate and
 //! client-CA setting) with long-lived clients that keep their `ClientConfig` — and so offer session
 //! resumption — across connections (`resume …` scenarios): every handshake after a reload is judged
-//! by the identity and client-CA policy in force at that moment.
+//! by the identity and client-CA policy in force at that moment.  Finally the signal path itself
+//! (`signal …` histories): the real `server_main` with `--tls-cert/--tls-key[/--tls-ca]`, the files
+//! rewritten with valid or broken content, SIGUSR1 sent to this process: every signal that finds
+//! valid files changes what later handshakes see, whatever failed before.
 //!
 //! Certificates are generated with rcgen into `/verif/.build/tmp/c17-<pid>/round<n>/` (removed at exit).
 
@@ -1439,6 +1442,504 @@ async fn resume_part(cx: &mut Ctx, pki: &Pki, round: &Round, leaves: &[(String, 
 }
 
 // ---------------------------------------------------------------------------------------------
+// Signal-driven reload: the real `server_main`, SIGUSR1 sent to this very process
+// ---------------------------------------------------------------------------------------------
+//
+// `server_main` with `--tls-cert/--tls-key[/--tls-ca]` registers a SIGUSR1 handler that calls
+// `reload_tls_identity` on the configured paths.  The property: "replacing the server identity at run
+// time changes what later handshakes see without disturbing established connections".  The oracle is
+// that sentence per signal: a SIGUSR1 that finds files from which a configuration can be built makes
+// later handshakes see the identity (and the client-CA policy) in those files — polled for up to
+// `SIGNAL_PATIENCE` —, one that finds broken files leaves the identity in force untouched, established
+// connections keep answering, and this holds for EVERY signal of the history, whatever failed before.
+//
+// SIGUSR1 is process-wide: the family runs sequentially in one place, nothing else in this harness
+// installs a SIGUSR1 handler (the other parts drive `run_listener` / `reload_tls_identity` directly),
+// and the harness registers a tokio SIGUSR1 stream of its own BEFORE the first signal is sent (tokio
+// never uninstalls its handler, so the default action "terminate" can no longer happen); that stream
+// also confirms that each signal was delivered to the process.
+
+const SIGNAL_PATIENCE: Duration = Duration::from_secs(10);
+const SIGNAL_SETTLE: Duration = Duration::from_millis(600);
+
+#[derive(Clone, Copy, Debug, PartialEq, Eq)]
+enum Brk {
+    /// new certificate in place, key file removed (rotation signalled too early)
+    MissingKey,
+    /// certificate file cut in the middle of the PEM body
+    Truncated,
+    /// new certificate, key of another key pair
+    Mismatched,
+    /// empty certificate file
+    EmptyCert,
+    /// the client-CA bundle holds no certificate (worlds with `--tls-ca` only)
+    EmptyCa,
+}
+
+#[derive(Clone, Copy, Debug, PartialEq, Eq)]
+enum SEv {
+    /// certificate and key replaced by a new valid identity; `Some(p)`: the client-CA file too
+    Valid(Option<Pol>),
+    Broken(Brk),
+    /// SIGUSR1, then the judgement
+    Signal,
+}
+
+/// `signal <n|c|d> <event>…`: `n` = server started without `--tls-ca`, `c`/`d` = with a client-CA file
+/// holding CA C / CA D.  Events: `v` new identity, `vc`/`vd` new identity and client CA C / D,
+/// `bk` missing key, `bt` truncated PEM, `bm` mismatched key, `be` empty certificate file,
+/// `ba` empty client-CA bundle, `s` SIGUSR1.
+#[derive(Clone, Debug, PartialEq, Eq)]
+struct SScenario {
+    ca: Pol,
+    evs: Vec<SEv>,
+}
+
+impl SScenario {
+    fn line(&self) -> String {
+        let mut s = format!("signal {}", self.ca.ch());
+        for e in &self.evs {
+            s.push(' ');
+            s.push_str(match e {
+                SEv::Valid(None) => "v",
+                SEv::Valid(Some(Pol::C)) => "vc",
+                SEv::Valid(Some(Pol::D)) => "vd",
+                SEv::Valid(Some(Pol::None)) => "v",
+                SEv::Broken(Brk::MissingKey) => "bk",
+                SEv::Broken(Brk::Truncated) => "bt",
+                SEv::Broken(Brk::Mismatched) => "bm",
+                SEv::Broken(Brk::EmptyCert) => "be",
+                SEv::Broken(Brk::EmptyCa) => "ba",
+                SEv::Signal => "s",
+            });
+        }
+        s
+    }
+    fn parse(line: &str) -> Option<Self> {
+        let t: Vec<&str> = line.split_whitespace().collect();
+        if t.len() < 3 || t[0] != "signal" || t[1].chars().count() != 1 {
+            return None;
+        }
+        let ca = Pol::parse(t[1].chars().next()?)?;
+        let mut evs = vec![];
+        for tok in &t[2..] {
+            let e = match *tok {
+                "v" => SEv::Valid(None),
+                "vc" => SEv::Valid(Some(Pol::C)),
+                "vd" => SEv::Valid(Some(Pol::D)),
+                "bk" => SEv::Broken(Brk::MissingKey),
+                "bt" => SEv::Broken(Brk::Truncated),
+                "bm" => SEv::Broken(Brk::Mismatched),
+                "be" => SEv::Broken(Brk::EmptyCert),
+                "ba" => SEv::Broken(Brk::EmptyCa),
+                "s" => SEv::Signal,
+                _ => return None,
+            };
+            // the client-CA file exists only in worlds started with `--tls-ca`
+            if ca == Pol::None && matches!(e, SEv::Valid(Some(_)) | SEv::Broken(Brk::EmptyCa)) {
+                return None;
+            }
+            evs.push(e);
+        }
+        (evs.len() <= 40).then_some(Self { ca, evs })
+    }
+}
+
+#[derive(Clone, Debug, Default)]
+struct SRun {
+    /// (class, description)
+    problems: Vec<(String, String)>,
+    infra: Option<String>,
+    /// per signal: (files valid, identity label presented afterwards)
+    signals: Vec<(bool, Option<String>)>,
+    model_ops: Vec<String>,
+    handshakes: u64,
+}
+
+fn send_sigusr1_to_self() -> Result<(), String> {
+    let st = std::process::Command::new("kill")
+        .arg("-USR1")
+        .arg(std::process::id().to_string())
+        .status()
+        .map_err(|e| format!("cannot run kill(1): {e}"))?;
+    if st.success() { Ok(()) } else { Err(format!("kill -USR1 exited with {st}")) }
+}
+
+static SIGNAL_WORLDS: std::sync::atomic::AtomicUsize = std::sync::atomic::AtomicUsize::new(0);
+
+async fn run_signal(pki: &Pki, sc: &SScenario, usr1: &mut tokio::signal::unix::Signal) -> SRun {
+    use rusty_penguin_lib::arg::ServerArgs;
+    let mut out = SRun::default();
+    let dir = pki.dir.join(format!("signal-{}", SIGNAL_WORLDS.fetch_add(1, Ordering::SeqCst)));
+    std::fs::create_dir_all(&dir).expect("signal dir");
+    let path = |f: &str| dir.join(f).to_str().expect("path").to_string();
+    let (cert, keyp, cap) = (path("cert.pem"), path("privkey.pem"), path("client-ca.pem"));
+    let ca_pem = |p: Pol| std::fs::read_to_string(p.ca_file(pki).expect("CA file")).expect("read CA");
+    let label = |i: usize| format!("{}", 10 * (i + 1));
+    // every identity ever written, by index; a label is `10 * (index + 1)`
+    let mut ders: Vec<Vec<u8>> = vec![];
+    let fresh = |ders: &mut Vec<Vec<u8>>| {
+        let l = leaf(&format!("signal identity {}", ders.len()), &["localhost"], true, None, "p256");
+        ders.push(l.2.clone());
+        l
+    };
+    // what the files hold: a matching certificate/key pair (its index), and the client-CA bundle
+    let first = fresh(&mut ders);
+    std::fs::write(&cert, &first.0).expect("write cert");
+    std::fs::write(&keyp, &first.1).expect("write key");
+    let mut file_id: Option<usize> = Some(0);
+    let mut file_ca: Option<Pol> = (sc.ca != Pol::None).then_some(sc.ca);
+    if sc.ca != Pol::None {
+        std::fs::write(&cap, ca_pem(sc.ca)).expect("write client CA");
+    }
+    // the identity and policy in force, as the property has it
+    let (mut cur_id, mut cur_pol) = (0usize, sc.ca);
+    // a port that is free right now
+    let port = match std::net::TcpListener::bind("127.0.0.1:0").and_then(|l| l.local_addr()) {
+        Ok(a) => a.port(),
+        Err(e) => {
+            out.infra = Some(format!("no free port: {e}"));
+            return out;
+        }
+    };
+    let args: &'static ServerArgs = Box::leak(Box::new(ServerArgs {
+        host: vec!["127.0.0.1".to_string()],
+        port: vec![port],
+        not_found_resp: "404".to_string(),
+        timeout: penguin_mux::timing::OptionalDuration::from_secs(120),
+        tls_cert: Some(cert.clone()),
+        tls_key: Some(keyp.clone()),
+        tls_ca: (sc.ca != Pol::None).then(|| cap.clone()),
+        ..Default::default()
+    }));
+    let server = tokio::spawn(rusty_penguin_lib::server::server_main(args));
+    out.model_ops.push("init 10".into());
+    // one handshake of a client without certificate: the leaf it is shown (the client's side of a
+    // TLS 1.3 handshake completes also when the server is going to refuse it for lack of a certificate)
+    async fn presented(port: u16, ders: &[Vec<u8>]) -> Result<(ClientStream, String), String> {
+        let io = async {
+            let tcp = tokio::net::TcpStream::connect(("127.0.0.1", port)).await.map_err(|e| format!("tcp: {e}"))?;
+            let s = tls_connect(tcp, "localhost", None, None, None, true).await.map_err(|e| format!("tls_connect: {e}"))?;
+            let lab = match peer_leaf(&s) {
+                None => "none".to_string(),
+                Some(d) => ders.iter().position(|x| *x == d).map_or("unknown".into(), |i| format!("{}", 10 * (i + 1))),
+            };
+            Ok::<_, String>((s, lab))
+        };
+        tokio::time::timeout(Duration::from_secs(5), io).await.unwrap_or_else(|_| Err("handshake timed out".into()))
+    }
+    // wait for the server to come up with the initial identity
+    let up_deadline = tokio::time::Instant::now() + Duration::from_secs(15);
+    loop {
+        out.handshakes += 1;
+        if matches!(presented(port, &ders).await, Ok((_, l)) if l == label(0)) {
+            break;
+        }
+        if server.is_finished() || tokio::time::Instant::now() >= up_deadline {
+            out.infra = Some(match server.is_finished() {
+                true => format!("server_main ended at start-up: {:?}", server.await),
+                false => "the server did not come up with the initial identity within 15 s".into(),
+            });
+            return out;
+        }
+        tokio::time::sleep(Duration::from_millis(50)).await;
+    }
+    // (stream, label it was shown, description)
+    let mut established: Vec<(ClientStream, String, String)> = vec![];
+    let mut n_signal = 0usize;
+    // signals that found broken files so far (their numbers)
+    let mut failed: Vec<usize> = vec![];
+    'events: for (i, ev) in sc.evs.iter().enumerate() {
+        match *ev {
+            SEv::Valid(p) => {
+                let l = fresh(&mut ders);
+                std::fs::write(&cert, &l.0).expect("write cert");
+                std::fs::write(&keyp, &l.1).expect("write key");
+                file_id = Some(ders.len() - 1);
+                if let Some(p) = p {
+                    std::fs::write(&cap, ca_pem(p)).expect("write client CA");
+                    file_ca = Some(p);
+                }
+            }
+            SEv::Broken(b) => {
+                let l = fresh(&mut ders);
+                match b {
+                    Brk::MissingKey => {
+                        std::fs::write(&cert, &l.0).expect("write cert");
+                        let _ = std::fs::remove_file(&keyp);
+                        file_id = None;
+                    }
+                    Brk::Truncated => {
+                        let cut = l.0.len() / 2;
+                        std::fs::write(&cert, &l.0[..cut]).expect("write cert");
+                        std::fs::write(&keyp, &l.1).expect("write key");
+                        file_id = None;
+                    }
+                    Brk::Mismatched => {
+                        let other = fresh(&mut ders);
+                        std::fs::write(&cert, &l.0).expect("write cert");
+                        std::fs::write(&keyp, &other.1).expect("write key");
+                        file_id = None;
+                    }
+                    Brk::EmptyCert => {
+                        std::fs::write(&cert, "").expect("write cert");
+                        std::fs::write(&keyp, &l.1).expect("write key");
+                        file_id = None;
+                    }
+                    Brk::EmptyCa => {
+                        std::fs::write(&cap, "# a CA bundle without any certificate\n").expect("write client CA");
+                        file_ca = None;
+                    }
+                }
+            }
+            SEv::Signal => {
+                n_signal += 1;
+                let valid = file_id.is_some() && (sc.ca == Pol::None || file_ca.is_some());
+                // the harness' idea of "files from which a configuration can be built" against the
+                // real configuration function (a disagreement is not a verdict on the signal path)
+                let builds = make_server_config(&cert, &keyp, (sc.ca != Pol::None).then_some(cap.as_str())).await.is_ok();
+                if builds != valid {
+                    out.infra = Some(format!(
+                        "event {i}: the harness takes the files for {} but make_server_config {}",
+                        if valid { "valid" } else { "broken" },
+                        if builds { "accepts them" } else { "rejects them" }
+                    ));
+                    break 'events;
+                }
+                if let Err(e) = send_sigusr1_to_self() {
+                    out.infra = Some(e);
+                    break 'events;
+                }
+                if !matches!(tokio::time::timeout(Duration::from_secs(10), usr1.recv()).await, Ok(Some(()))) {
+                    out.infra = Some(format!("event {i}: SIGUSR1 was sent but not delivered to this process within 10 s"));
+                    break 'events;
+                }
+                let history = if failed.is_empty() {
+                    "no reload had failed before".to_string()
+                } else {
+                    format!("the reload(s) of signal(s) {failed:?} had failed before (broken files), as they must")
+                };
+                let shown: Option<String>;
+                if valid {
+                    let (want_id, want_pol) = (file_id.expect("valid"), file_ca.unwrap_or(Pol::None));
+                    out.model_ops.push(format!("reload {}", label(want_id)));
+                    let deadline = tokio::time::Instant::now() + SIGNAL_PATIENCE;
+                    let mut last = String::new();
+                    let mut got = None;
+                    loop {
+                        out.handshakes += 1;
+                        match presented(port, &ders).await {
+                            Ok((s, l)) if l == label(want_id) => {
+                                got = Some(s);
+                                break;
+                            }
+                            Ok((_, l)) => last = format!("identity {l}"),
+                            Err(e) => last = format!("no handshake ({e})"),
+                        }
+                        if tokio::time::Instant::now() >= deadline {
+                            break;
+                        }
+                        tokio::time::sleep(Duration::from_millis(100)).await;
+                    }
+                    match got {
+                        Some(s) => {
+                            shown = Some(label(want_id));
+                            cur_id = want_id;
+                            cur_pol = want_pol;
+                            if sc.ca == Pol::None {
+                                established.push((s, label(want_id), format!("the client connected after signal {n_signal}")));
+                            }
+                        }
+                        None => {
+                            shown = None;
+                            let class = if failed.is_empty() { "signal-not-applied" } else { "later-signal-ignored-after-failed-reload" };
+                            out.problems.push((class.into(), format!(
+                                "event {i}: SIGUSR1 number {n_signal} found a valid certificate/key{} in place (identity {}), but for {} s every \
+                                 later handshake still saw {last}; the identity in force before was {}; {history}",
+                                if sc.ca == Pol::None { String::new() } else { format!(" and client CA {}", want_pol.ch().to_ascii_uppercase()) },
+                                label(want_id), SIGNAL_PATIENCE.as_secs(), label(cur_id))));
+                            out.signals.push((valid, shown));
+                            break 'events;
+                        }
+                    }
+                } else {
+                    failed.push(n_signal);
+                    out.model_ops.push("reload-fail".into());
+                    tokio::time::sleep(SIGNAL_SETTLE).await;
+                    out.handshakes += 1;
+                    match presented(port, &ders).await {
+                        Ok((s, l)) if l == label(cur_id) => {
+                            shown = Some(l.clone());
+                            if sc.ca == Pol::None {
+                                established.push((s, l, format!("the client connected after signal {n_signal}")));
+                            }
+                        }
+                        Ok((_, l)) => {
+                            shown = Some(l.clone());
+                            out.problems.push(("failed-reload-changed-identity".into(), format!(
+                                "event {i}: SIGUSR1 number {n_signal} found broken files; afterwards a handshake saw identity {l}, the identity \
+                                 in force is {}", label(cur_id))));
+                        }
+                        Err(e) => {
+                            shown = None;
+                            out.problems.push(("server-stopped-serving-after-failed-reload".into(), format!(
+                                "event {i}: SIGUSR1 number {n_signal} found broken files; afterwards no handshake completes: {e}")));
+                        }
+                    }
+                }
+                out.signals.push((valid, shown));
+                out.model_ops.push("accept".into());
+                // the client-CA policy in force, on fresh clients of each kind
+                for who in Who::ALL {
+                    let (c, k) = who.files(pki).unzip();
+                    let io = async {
+                        let tcp = tokio::net::TcpStream::connect(("127.0.0.1", port)).await.map_err(|e| format!("tcp: {e}"))?;
+                        let mut s = tls_connect(tcp, "localhost", c.as_deref(), k.as_deref(), None, true)
+                            .await
+                            .map_err(|e| format!("tls_connect: {e}"))?;
+                        health(&mut s).await?;
+                        Ok::<ClientStream, String>(s)
+                    };
+                    out.handshakes += 1;
+                    let r = tokio::time::timeout(Duration::from_secs(8), io).await.unwrap_or_else(|_| Err("timed out".into()));
+                    let want = cur_pol.admits(who);
+                    if r.is_ok() != want {
+                        out.problems.push(("client-ca-not-the-one-in-force".into(), format!(
+                            "event {i}: after SIGUSR1 number {n_signal} the client-CA setting in force is `{}`; a fresh client `{}` must be {}, \
+                             observed: {}", cur_pol.ch(), who.ch(), if want { "served" } else { "refused" },
+                            match &r { Ok(_) => "served".to_string(), Err(e) => format!("refused ({e})") })));
+                    }
+                    if let Ok(s) = r {
+                        let l = match peer_leaf(&s) {
+                            None => "none".to_string(),
+                            Some(d) => ders.iter().position(|x| *x == d).map_or("unknown".into(), |i| label(i)),
+                        };
+                        established.push((s, l, format!("the `{}` client connected after signal {n_signal}", who.ch())));
+                    }
+                }
+                // established connections are not disturbed by the reload (or by its failure)
+                for (s, l, what) in &mut established {
+                    if let Err(e) = health(s).await {
+                        out.problems.push(("established-disturbed".into(),
+                            format!("event {i}: after SIGUSR1 number {n_signal} the established connection of {what} stopped answering: {e}")));
+                    }
+                    let now = match peer_leaf(s) {
+                        None => "none".to_string(),
+                        Some(d) => ders.iter().position(|x| *x == d).map_or("unknown".into(), |i| label(i)),
+                    };
+                    if now != *l {
+                        out.problems.push(("established-identity-changed".into(),
+                            format!("event {i}: the peer certificate of the established connection of {what} changed from {l} to {now}")));
+                    }
+                }
+                if !out.problems.is_empty() {
+                    break 'events;
+                }
+            }
+        }
+    }
+    server.abort();
+    out
+}
+
+/// (quick, thorough-only) histories.  Quick: a failed reload then a good one; a client-CA change
+/// across a failed reload.  Thorough adds: ok; fail, fail, ok; ok, fail, ok, ok; every kind of broken
+/// files; worlds with a client CA from the start.
+fn signal_fixed(tier: Tier) -> Vec<SScenario> {
+    let mut lines = vec!["signal n bk s v s", "signal c v s ba s vd s v s"];
+    if tier == Tier::Thorough {
+        lines.extend([
+            "signal n v s",
+            "signal n bt s bm s v s",
+            "signal n v s be s v s v s",
+            "signal n bk s bt s bm s be s v s v s",
+            "signal d bk s vc s bt s v s",
+            "signal c ba s bm s be s vd s vc s",
+            "signal d v s s bk v s ba s s vc s",
+        ]);
+    }
+    lines.into_iter().map(|l| SScenario::parse(l).expect("fixed signal history")).collect()
+}
+
+fn signal_random(r: &mut Rng) -> SScenario {
+    let ca = *r.pick(&Pol::ALL);
+    let mut evs = vec![];
+    for _ in 0..r.range(3, 6) {
+        // one or two rewrites of the files, then the signal (sometimes twice)
+        for _ in 0..r.range(1, 2) {
+            let e = if r.chance(1, 2) {
+                SEv::Valid(if ca != Pol::None && r.chance(1, 2) { Some(*r.pick(&[Pol::C, Pol::D])) } else { None })
+            } else {
+                let kinds: &[Brk] = if ca == Pol::None {
+                    &[Brk::MissingKey, Brk::Truncated, Brk::Mismatched, Brk::EmptyCert]
+                } else {
+                    &[Brk::MissingKey, Brk::Truncated, Brk::Mismatched, Brk::EmptyCert, Brk::EmptyCa]
+                };
+                SEv::Broken(*r.pick(kinds))
+            };
+            evs.push(e);
+        }
+        evs.push(SEv::Signal);
+        if r.chance(1, 6) {
+            evs.push(SEv::Signal);
+        }
+    }
+    SScenario { ca, evs }
+}
+
+async fn signal_part(cx: &mut Ctx, pki: &Pki, usr1: &mut tokio::signal::unix::Signal, scs: &[SScenario], done: &mut Vec<String>) {
+    for sc in scs {
+        let line = sc.line();
+        if done.contains(&line) {
+            continue;
+        }
+        done.push(line.clone());
+        cx.rep.case(Some(fnv(line.as_bytes())));
+        cx.rep.count("signal/history");
+        let t = std::time::Instant::now();
+        let mut run = run_signal(pki, sc, usr1).await;
+        if run.infra.is_some() || !run.problems.is_empty() {
+            // once more on its own before anything is reported
+            cx.rep.count("signal/re-run");
+            run = run_signal(pki, sc, usr1).await;
+        }
+        cx.rep.count_n("signal/handshakes", run.handshakes);
+        cx.rep.count_n("signal/ms", t.elapsed().as_millis() as u64);
+        for (valid, _) in &run.signals {
+            cx.rep.count(if *valid { "signal/sigusr1-valid-files" } else { "signal/sigusr1-broken-files" });
+        }
+        let replay = json!({"op": "signal", "line": line, "signals": run.signals.iter().map(|(v, s)| json!({"files_valid": v,
+            "identity_presented_afterwards": s})).collect::<Vec<_>>()});
+        if let Some(why) = &run.infra {
+            cx.rep.fail(FailKind::Model, &format!("signal could-not-run :: {line}"), why, replay);
+            continue;
+        }
+        if !run.problems.is_empty() {
+            for (class, desc) in &run.problems {
+                cx.rep.fail(FailKind::Impl, &format!("signal {class} :: {line}"), desc, replay.clone());
+            }
+            continue;
+        }
+        if let Some(d) = cx.drv.as_mut() {
+            // the listener model: every signal is `reload <id>` or `reload-fail`, then an accepted connection
+            let answers = d.batch(&run.model_ops);
+            let acc: Vec<&String> = run.model_ops.iter().zip(&answers).filter(|(o, _)| *o == "accept").map(|(_, a)| a).collect();
+            for (k, ((_, shown), a)) in run.signals.iter().zip(acc).enumerate() {
+                cx.rep.model_compared += 1;
+                if shown.as_deref() != Some(a.as_str()) {
+                    cx.rep.fail(FailKind::Model, &format!("model signal :: {line}"),
+                        &format!("signal {}: model serves identity {a}, implementation presented {shown:?}", k + 1), replay.clone());
+                }
+            }
+        }
+        if cx.rep.samples.len() < 12 && sc.evs.len() >= 6 {
+            cx.rep.sample(json!({"signal": line, "per_signal": run.signals.iter().map(|(v, s)| json!({"files_valid": v,
+                "identity_presented_afterwards": s})).collect::<Vec<_>>()}));
+        }
+    }
+}
+
+// ---------------------------------------------------------------------------------------------
 
 fn rounds_for(args: &Args, rng: &mut Rng) -> Vec<Round> {
     let mut v = vec![Round { idx: 0, alg: "p256", intermediate: false, mismatch_on_cert: false }];
@@ -1502,6 +2003,41 @@ fn replay(path: &str) -> i32 {
                 0
             } else {
                 println!("FAILS");
+                1
+            }
+        }
+        Some("signal") => {
+            let Some(sc) = rp["line"].as_str().and_then(SScenario::parse) else {
+                println!("unreadable signal history");
+                return 2;
+            };
+            let round = Round { idx: 0, alg: "p256", intermediate: false, mismatch_on_cert: false };
+            let pki = Pki::generate(&base, &round);
+            println!("history   {}", sc.line());
+            let run = rt.block_on(async {
+                // our own handler first: no SIGUSR1 can terminate this process afterwards
+                let mut usr1 = tokio::signal::unix::signal(tokio::signal::unix::SignalKind::user_defined1()).expect("register SIGUSR1");
+                let mut run = run_signal(&pki, &sc, &mut usr1).await;
+                if run.infra.is_some() || !run.problems.is_empty() {
+                    println!("first run fails; running once more");
+                    run = run_signal(&pki, &sc, &mut usr1).await;
+                }
+                run
+            });
+            for (k, (valid, shown)) in run.signals.iter().enumerate() {
+                println!("observed  SIGUSR1 number {}: files {}, identity presented afterwards {shown:?}", k + 1,
+                    if *valid { "valid" } else { "broken" });
+            }
+            if let Some(why) = &run.infra {
+                println!("could not run: {why}");
+                2
+            } else if run.problems.is_empty() {
+                println!("holds on this input");
+                0
+            } else {
+                for (k, d) in &run.problems {
+                    println!("FAILS [{k}]: {d}");
+                }
                 1
             }
         }
@@ -1574,7 +2110,8 @@ fn main() {
 matches/differs} x {skip-verify} x {client cert: none/trusted CA/other CA} x {server client-CA set/not} (72) as a real \
 handshake per PKI round (key algorithm, direct or via an intermediate, name mismatch on the request or on the \
 certificate), plus configuration corner cases, CertificateRequest probes, the client's server-name choice, the reload \
-scenario and histories of reloads with long-lived clients that keep their TLS session store (every client-CA transition); every case is non-trivial (a real handshake or configuration attempt); distinct by (round, configuration)";
+scenario, histories of reloads with long-lived clients that keep their TLS session store (every client-CA transition) and \
+histories of SIGUSR1-driven reloads (valid and broken files) against the real server_main; every case is non-trivial (a real handshake or configuration attempt); distinct by (round, configuration)";
     let mut cx = Ctx {
         rep: Report::new("tls", &args, rule),
         drv: args.driver.as_deref().map(|p| Driver::spawn(p, &[]).expect("start Lean driver")),
@@ -1585,6 +2122,9 @@ scenario and histories of reloads with long-lived clients that keep their TLS se
     let rounds = rounds_for(&args, &mut rng);
     let t0 = std::time::Instant::now();
     rt.block_on(async {
+        // before any SIGUSR1 can be sent: a handler of our own (see the signal family)
+        let mut usr1 = tokio::signal::unix::signal(tokio::signal::unix::SignalKind::user_defined1()).expect("register SIGUSR1");
+        let mut signal_done: Vec<String> = vec![];
         // corpus first: `hs <json case>` lines, run on the PKI of round 0
         let corpus = pvhf::corpus_files(args.corpus.as_deref());
         if !corpus.is_empty() {
@@ -1603,6 +2143,9 @@ scenario and histories of reloads with long-lived clients that keep their TLS se
                     let leaves = resume_leaves(&rounds[0]);
                     resume_part(&mut cx, &pki, &rounds[0], &leaves, &rscs).await;
                 }
+                // `signal …` lines: SIGUSR1 histories against the real `server_main`
+                let sscs: Vec<SScenario> = text.lines().filter_map(SScenario::parse).collect();
+                signal_part(&mut cx, &pki, &mut usr1, &sscs, &mut signal_done).await;
             }
         }
         for round in &rounds {
@@ -1627,6 +2170,15 @@ scenario and histories of reloads with long-lived clients that keep their TLS se
                 };
                 rscs.extend((0..n_random).map(|_| resume_random(&mut rng)));
                 resume_part(&mut cx, &pki, round, &leaves, &rscs).await;
+            }
+            if round.idx == 0 {
+                // SIGUSR1 histories against the real `server_main` (one world, sequential; the signal is
+                // process-wide): two short ones in quick, the whole family plus seeded ones in thorough
+                let mut sscs = signal_fixed(args.tier);
+                if args.tier == Tier::Thorough {
+                    sscs.extend((0..8).map(|_| signal_random(&mut rng)));
+                }
+                signal_part(&mut cx, &pki, &mut usr1, &sscs, &mut signal_done).await;
             }
             cx.rep.count(&format!("round/{}{}{}", round.alg, if round.intermediate { "+intermediate" } else { "" },
                 if round.mismatch_on_cert { "+san-mismatch" } else { "" }));
